@@ -44,6 +44,9 @@ type Pair struct {
 	// HandlerDelay[i] (nanoseconds): party i's update handler waits that long
 	// before it answers (real time; it only shapes the schedule)
 	HandlerDelay [2]atomic.Int64
+	// SettleCtxDelay[i]: delays (microseconds) of the first Done() calls on the
+	// context party i's Settle runs with (see SlowCtx)
+	SettleCtxDelay [2][]int
 	// HandlerEntered[i] receives a token (non-blocking) whenever party i's update
 	// handler is entered (the client holds the channel's machine mutex then)
 	HandlerEntered [2]chan struct{}
@@ -362,6 +365,25 @@ func (pr *Pair) SettleSub() error {
 }
 
 // SettleResult is the outcome of one Settle call.
+// SlowCtx is a context whose k-th Done() call takes DelaysUs[k] microseconds.
+// The library asks a context for its Done channel right before it waits for a
+// lock, so a scenario can hold one go routine of a call back for a moment
+// while the others go on: schedule control without touching the library.
+type SlowCtx struct {
+	context.Context
+	DelaysUs []int
+	n        atomic.Int32
+}
+
+// Done implements context.Context.
+func (s *SlowCtx) Done() <-chan struct{} {
+	k := int(s.n.Add(1)) - 1
+	if k < len(s.DelaysUs) && s.DelaysUs[k] > 0 {
+		time.Sleep(time.Duration(s.DelaysUs[k]) * time.Microsecond)
+	}
+	return s.Context.Done()
+}
+
 type SettleResult struct {
 	Err  error
 	Hung bool
@@ -378,7 +400,11 @@ func (pr *Pair) Settle(order []int, concurrent bool, secondary [2]bool) [2]Settl
 		done := make(chan int, len(parties))
 		for _, i := range parties {
 			go func(i int) {
-				res[i].Err = pr.Ch[i].Settle(ctx, secondary[i])
+				var sctx context.Context = ctx
+				if len(pr.SettleCtxDelay[i]) > 0 {
+					sctx = &SlowCtx{Context: ctx, DelaysUs: pr.SettleCtxDelay[i]}
+				}
+				res[i].Err = pr.Ch[i].Settle(sctx, secondary[i])
 				done <- i
 			}(i)
 		}
